@@ -37,6 +37,23 @@ pub fn read_view(dir: &std::path::Path, ctl: &FaultCtl) -> View {
     })
 }
 
+/// what the working handle itself shows: tasks and working set through the Replica interface
+fn live_view(rep: &mut Rep, ctl: &FaultCtl) -> (Tasks, Vec<Option<usize>>) {
+    ctl.arm(-1);
+    let pools = db_pools();
+    let mut tasks = Tasks::new();
+    for (u, td) in block_on(rep.all_task_data()).expect("all_task_data") {
+        let mut tk = BTreeMap::new();
+        for (p, v) in td.iter() {
+            tk.insert(pools.prop_index(p).expect("prop"), pools.value_index(v).expect("value"));
+        }
+        tasks.insert(uuid_index(u, 64).expect("uuid"), tk);
+    }
+    let ws = block_on(rep.working_set()).expect("working_set");
+    let wsv = (0..=ws.largest_index()).map(|i| ws.by_index(i).map(|u| uuid_index(u, 64).expect("uuid"))).collect();
+    (tasks, wsv)
+}
+
 #[derive(Clone, Debug)]
 pub enum CAct {
     Commit(Vec<LOp>),
@@ -153,6 +170,11 @@ fn run_crash(seed: u64, id: usize, maxlen: usize, scripted: Option<Vec<CAct>>) -
             }
             // abandoned at call idx: a fresh handle must see the complete before-state
             let seen = read_view(&dir, &ctl);
+            // and the handle that abandoned it must not show anything else
+            let (lt, lws) = live_view(&mut rep, &ctl);
+            if lt != seen.tasks || lws != seen.ws {
+                problems.push(format!("{:?} abandoned at storage call {idx}: the same handle then shows tasks {:?} and working set {:?}, a fresh handle shows {:?} and {:?}", act, lt, lws, seen.tasks, seen.ws));
+            }
             if seen != before {
                 // a sync is two transactions (sync, then working-set rebuild): after the first
                 // committed, the complete after-sync state is the other legal outcome
